@@ -97,7 +97,8 @@ def gen(tier, seed):
         lens += [4095, 4096, 4097, 65535, 65536, 65537]
     reps = 12 if tier == "quick" else 60
     for n in lens:
-        for _ in range(reps):
+        # the extracted model needs seconds per 64 KiB input: a few repetitions only for the long lengths
+        for _ in range(reps if n < 1000 else (6 if n < 10000 else 2)):
             data = bytes(rnd.getrandbits(8) for _ in range(n))
             text = py_enc(bytes(rnd.getrandbits(8) for _ in range(n)))[:n]
             m = rnd.random()
